@@ -589,12 +589,12 @@ def enumerated(tier):
     for d in HS_DEVS + [{"kind": "hs_status", "val": v} for v in (2, 0x41, 0x80, 0xFF)] + [{"kind": "hs_flip", "pos": p, "mask": 1} for p in (0, 5, 31, 32, 47)] + [{"kind": "hs_trunc", "len": n} for n in (0, 1, 20, 48)]:
         for cuts in (None, [3], [4, 9]):
             yield {"mode": "api", "what": "dev", "dev": d, "cuts": cuts}
-    for nm, ex in (("dev", "other"), ("", "dev"), ("devx", "dev")):
+    for nm, ex in (("dev", "other"), ("", "dev"), ("devx", "dev"), ("dev-2", "dev"), ("plug-2", "plug"), ("dev", "dev-2")):
         yield {"mode": "api", "what": "dev", "dev": {"kind": "name"}, "name": nm, "expected": ex}
     for what in ("wrong_key", "plain_device_noise_client", "noise_device_plain_client"):
         yield {"mode": "api", "what": what}
     for nn in (None, "dev"):
-        for an in ("garage", "Dev", "dev2"):
+        for an in ("garage", "Dev", "dev2", "dev-2", "dev-aabbcc", "de"):
             yield {"mode": "api", "what": "api_name", "name": nn, "expected": "dev", "api_name": an}
 
 
